@@ -5,8 +5,10 @@
  * usage: c16_trigger <mode> <limit> <seed> <shard> <nshards>
  *   mode 0: one injector, exhaustive DFS             (shard 0 only)
  *   mode 1: two injectors, seeded random schedules    (<limit> per shard)
- *   mode 2: two injectors, exhaustive DFS, partitioned over shards by the first decisions
- *        c16_trigger -      schedules on stdin: "<ninj> <c0,c1,c2,...>"
+ *   mode 2: two injectors, exhaustive DFS, partitioned over shards by the first decisions (mode 3: by the first three)
+ *   mode 4: START-UP leg - one injector that starts TOGETHER with the daemon: DFS over every interleaving of the first 9 (limit >= 4000: 12)
+ *           decisions, partitioned like mode 3;  mode 5: START-UP leg, two injectors, seeded random schedules
+ *        c16_trigger -      schedules on stdin: "<ninj> <c0,c1,c2,...> <readdir snapshot 0|1> [<variant 0|1>]"
  *
  * Scheduling: a thread whose next call is not trigger-related runs on without a decision; when every
  * runnable thread is about to make a trigger-related call (link todo / open, write, close of the FIFO /
@@ -32,6 +34,10 @@ static int ninj;
 static int sched[256], nsched;          /* forced choices */
 static int made[256], branch[256], nmade;
 static int random_mode; static uint64_t rng;
+static int variant;                     /* 0: the injectors start once the daemon has reached its first blocking select;
+                                           1: injector A starts together with the daemon (START-UP leg: its steps interleave with todo_init's open of the
+                                              FIFO, the first selects, the start-up re-arm and the first scan - or finish before the daemon's first step) */
+static int depth_cap;                   /* DFS: only the first depth_cap decisions branch; afterwards the first runnable thread (the daemon) goes on */
 static int idle_reached, a_wrote, term_sent, nselect_idle, nselect_run;
 #define SELECT_STORM 1000               /* a run of the unmodified daemon makes ~100-200 selects; far beyond that it is spinning */
 static long link_clock[SIM_MAXINO];
@@ -53,6 +59,7 @@ static int pick(int n, int *idx, const char **what) {
   int k;
   if (streak >= 12) { k = 0; for (int i = 0; i < n; i++) if (idx[i] != last) { k = i; break; } streak = 0; last = idx[k]; return k; }
   if (nmade < nsched) k = sched[nmade] % n;
+  else if (depth_cap && nmade >= depth_cap) { if (idx[0] == last) streak++; else { last = idx[0]; streak = 1; } return 0; }
   else if (random_mode) { rng = rng * 6364136223846793005ull + 1442695040888963407ull; k = (int)((rng >> 33) % n); }
   else k = 0;
   if (nmade < 256) { made[nmade] = k; branch[nmade] = n; nmade++; }
@@ -113,7 +120,7 @@ static int daemon_select(simproc *p, int nfds, fd_set *r, fd_set *w, struct time
   return 0;
 }
 
-static int inj_a_wait(simproc *p) { return !idle_reached; }
+static int inj_a_wait(simproc *p) { return variant == 1 ? 0 : !idle_reached; }
 static int inj_b_wait(simproc *p) { return !a_wrote; }
 
 static void ctl(const char *name, const char *val) { char p[120]; snprintf(p, sizeof p, "/var/qmail/control/%s", name); sim_mkfile(p, val, strlen(val), 0, 0644); }
@@ -162,7 +169,7 @@ static void run_once(void) {
   sim_run_all();
   sim_threads = 0;
   /* output */
-  fprintf(h_out, "CASE ninj=%d snap=%d sched=", ninj, sim_readdir_snapshot);
+  fprintf(h_out, "CASE ninj=%d snap=%d var=%d sched=", ninj, sim_readdir_snapshot, variant);
   for (int i = 0; i < nmade; i++) fprintf(h_out, "%s%d", i ? "," : "", made[i]);
   if (!nmade) fputc('-', h_out);
   fputc('\n', h_out);
@@ -198,8 +205,8 @@ int main(int argc, char **argv) {
   if (argc > 1 && !strcmp(argv[1], "-")) {
     char line[2000];
     while (fgets(line, sizeof line, stdin)) {
-      char sc[1800]; int snap = 0; if (sscanf(line, "%d %1799s %d", &ninj, sc, &snap) < 2) continue;
-      sim_readdir_snapshot = snap;
+      char sc[1800]; int snap = 0, var = 0; if (sscanf(line, "%d %1799s %d %d", &ninj, sc, &snap, &var) < 2) continue;
+      sim_readdir_snapshot = snap; variant = var;
       nsched = 0; random_mode = 0;
       if (sc[0] != '-') for (char *t = strtok(sc, ","); t && nsched < 256; t = strtok(0, ",")) sched[nsched++] = atoi(t);
       sim_pick = pick_watch; run_once();
@@ -216,9 +223,14 @@ int main(int argc, char **argv) {
   } else if (mode == 1) {
     ninj = 2; random_mode = 1;
     for (int r = 0; r < limit; r++) { nsched = 0; sim_readdir_snapshot = r & 1; rng = (seed * 1000003ull + shard) * 2654435761ull + r * 40503ull + 1; run_once(); }
-  } else if (mode == 3) {
+  } else if (mode == 5) {
+    /* START-UP leg, two injectors (B starts when A has written), seeded random schedules */
+    ninj = 2; random_mode = 1; variant = 1;
+    for (int r = 0; r < limit; r++) { nsched = 0; sim_readdir_snapshot = r & 1; rng = (seed * 1000003ull + shard) * 2654435761ull + r * 40503ull + 77; run_once(); }
+  } else if (mode == 3 || mode == 4) {
+    if (mode == 4) { variant = 1; depth_cap = limit >= 4000 ? 12 : 9; }   /* START-UP leg, one injector: every interleaving of the first depth_cap decisions */
     /* as mode 2 but partitioned by the first THREE decisions (27 subtrees): the same depth-first enumeration spread evenly over the cores */
-    ninj = 2; random_mode = 0;
+    ninj = mode == 4 ? 1 : 2; random_mode = 0;
     if (shard >= 27) return 0;
     int fx[3] = { shard % 3, (shard / 3) % 3, (shard / 9) % 3 };
     for (int k = 0; k < 3; k++) sched[k] = fx[k];
